@@ -1720,9 +1720,17 @@ class Interp:
         if other or len(seqs) != 1 or len(streams) != 1 or len(summ.back_states) != 1:
             return None
         (qr, qp, qf, q0), (ir, ip, if_, i0) = seqs[0], streams[0]
-        if i0.kind != 'src' or not isinstance(i0.parts[0], SliceRef) or i0.parts[1] == 'mut':
+        if i0.kind == 'range' and if_.kind == 'range':
+            # `for j in a..b`: the traversal index is the element
+            class _V:
+                pass
+            v0, vf = _V(), _V()
+            v0.start, v0.end, v0.root, v0.path = i0.parts[0], i0.parts[1], None, None
+            vf.start, vf.end = if_.parts[0], if_.parts[1]
+        elif i0.kind != 'src' or not isinstance(i0.parts[0], SliceRef) or i0.parts[1] == 'mut':
             return None
-        v0, vf = i0.parts[0], if_.parts[0]
+        else:
+            v0, vf = i0.parts[0], if_.parts[0]
         if (v0.root, v0.path) == (qr, qp) or vf.end != v0.end:
             return None
         ivar = vf.start
@@ -1734,7 +1742,10 @@ class Interp:
             qb = self.read(bs, qr, qp)
         except Unsupported:
             return None
-        if not (isinstance(ib, Stream) and ib.kind == 'src' and ib.parts[0].start == self.iadd(ivar, iconst(1)) and ib.parts[0].end == v0.end):
+        if i0.kind == 'range':
+            if not (isinstance(ib, Stream) and ib.kind == 'range' and ib.parts[0] == self.iadd(ivar, iconst(1)) and ib.parts[1] == v0.end):
+                return None
+        elif not (isinstance(ib, Stream) and ib.kind == 'src' and ib.parts[0].start == self.iadd(ivar, iconst(1)) and ib.parts[0].end == v0.end):
             return None
         if not (isinstance(qb, SeqPush) and qb.seq == qf):
             return None
@@ -1760,7 +1771,7 @@ class Interp:
         rel = self.fresh_sym('ι')
         mapping = {ivar: self.iadd(v0.start, rel)} if v0.start != iconst(0) else {ivar: rel}
         n = self.isub(v0.end, v0.start)
-        src = Stream('src', (v0, i0.parts[1]))
+        src = Stream('src', (v0, i0.parts[1])) if i0.kind == 'src' else i0
         if not scal:
             body = SeqMap(src, rel, self.subst_value(val, mapping), 'loop', n)
         else:
